@@ -339,7 +339,7 @@ func varOps() []op {
 
 var varOpValues = map[string][]string{
 	"amt": {"USD 3", "USD 30", "USD 18446744073709551616"},
-	"cap": {"USD 5", "USD 50", "USD 18446744073709551617"},
+	"cap": {"USD 5", "USD 50", "USD 18446744073709551617", "USD 010"},
 	"cod": {"USD 2", "USD 10", "USD 18446744073709551616"},
 	"p":   {"25%", "1/3", "100%"},
 }
@@ -348,7 +348,7 @@ var varOpValues = map[string][]string{
 // variables they use x sheets a in {0,4,20,-50}, b in {0,100}.
 func runVarSeqSpace(w *mc.Worker, name string, minLen, maxLen int, body func(c *seqCase, vars map[string]string, bal env.Bal)) {
 	ops := varOps()
-	w.Stage(name, fmt.Sprintf("all sequences of %d..%d statements out of %d that take amounts / caps / overdraft bounds / portions from shared variables x 3 values per variable (incl. 2^64) x sheets a in {0,4,20,-50}, b in {0,100}", minLen, maxLen, len(ops)), func() {
+	w.Stage(name, fmt.Sprintf("all sequences of %d..%d statements out of %d that take amounts / caps / overdraft bounds / portions from shared variables x 3-4 values per variable (incl. 2^64 and a numeral with a leading zero) x sheets a in {0,4,20,-50}, b in {0,100}", minLen, maxLen, len(ops)), func() {
 		w.Outer(name+"/seq", 0, func(o *mc.Explorer) {
 			n := minLen + o.Choose(maxLen-minLen+1)
 			c := &seqCase{Prog: &gen.Program{}}
@@ -407,6 +407,8 @@ func edgeOps() []op {
 		}},
 		{"send3 wf->x", 0, func() gen.Stmt { return sendN(U, "3", sa(wf), da("x")) }},
 		{"send* wf->x", 0, func() gen.Stmt { return sendAllS(U, sa(wf), da("x")) }},
+		{"send2 a unbounded->x", 0, func() gen.Stmt { return sendN(U, "2", &gen.SrcOverdraft{Addr: gen.Acct("a")}, da("x")) }},
+		{"send4 {a+od3 b}->x", 0, func() gen.Stmt { return sendN(U, "4", lst(over("a", U, "3"), sa("b")), da("x")) }},
 		{"send2 a->world", 0, func() gen.Stmt { return sendN(U, "2", sa("a"), da("world")) }},
 		{"send4 {a b}->{1/2 world, 1/2 x}", 0, func() gen.Stmt { return sendN(U, "4", lst(sa("a"), sa("b")), half("world", "x")) }},
 		{"send3 {a world}->x", 0, func() gen.Stmt { return sendN(U, "3", lst(sa("a"), sa("world")), da("x")) }},
